@@ -20,6 +20,39 @@ POOL_INV = [
 
 ALL_OK = "all(final_code(pid) == 0 for pid in started)"
 
+def loops_after_first_assignment(qualname, var, inv, role_extra=None):
+    """loop ordinal -> invariants, for the loops that come after the first assignment of `var`
+    (read from the current source on every run); role_extra(loop_node, inside_dispatch) -> list"""
+    import ast
+    from pyvc.contracts import find_function
+    try:
+        fn = find_function(qualname)[1]
+    except Exception:
+        return {}
+    first = None
+    for n in ast.walk(fn):
+        if isinstance(n, ast.Assign) and any(isinstance(t, ast.Name) and t.id == var for t in n.targets):
+            first = n.lineno if first is None else min(first, n.lineno)
+    out = {}
+    k = [0]
+
+    def walk(node, inside):
+        for ch in ast.iter_child_nodes(node):
+            if isinstance(ch, (ast.For, ast.While)):
+                kk = k[0]
+                k[0] += 1
+                if first is not None and ch.lineno > first:
+                    out[kk] = list(inv) + (role_extra(ch, inside) if role_extra else [])
+                is_dispatch = isinstance(ch, ast.For) and isinstance(ch.target, ast.Name) \
+                    and ch.target.id == 'col0'
+                walk(ch, inside or is_dispatch)
+            else:
+                walk(ch, inside)
+    walk(fn, False)
+    return out
+
+
+
 contract(
     'cell_type_mapper.type_assignment.election.run_type_assignment_on_h5ad_cpu#procs',
     properties=['C14', 'C04'],
@@ -29,7 +62,8 @@ contract(
     locals=dict(process_list='List[Proc]'),
     ghost=dict(vars=dict(started='Set[Int]')),
     ensures=[ALL_OK],
-    loops={0: POOL_INV, 1: POOL_INV, 2: POOL_INV},
+    loops=loops_after_first_assignment(
+        'cell_type_mapper.type_assignment.election.run_type_assignment_on_h5ad_cpu', 'process_list', POOL_INV),
     min_obligations=10,
 )
 
@@ -43,7 +77,9 @@ contract(
     locals=dict(process_list='List[Proc]'),
     ghost=dict(vars=dict(started='Set[Int]')),
     ensures=[ALL_OK],
-    loops={k: POOL_INV for k in range(0, 12)},
+    loops=loops_after_first_assignment(
+        'cell_type_mapper.diff_exp.precompute_from_anndata._precompute_summary_stats_from_h5ad_and_lookup',
+        'process_list', POOL_INV),
     min_obligations=10,
 )
 
@@ -56,7 +92,9 @@ contract(
     locals=dict(process_list='List[Proc]'),
     ghost=dict(vars=dict(started='Set[Int]')),
     ensures=[ALL_OK],
-    loops={k: POOL_INV for k in range(0, 12)},
+    loops=loops_after_first_assignment(
+        'cell_type_mapper.utils.csc_to_csr_parallel._transpose_sparse_matrix_on_disk_v2',
+        'process_list', POOL_INV),
     min_obligations=10,
 )
 
@@ -69,36 +107,17 @@ DICT_INV = [
 
 
 
-def _dict_loops(qualname):
-    """invariants by loop role (read from the current source): the `for col0 in range(...)`
-    dispatch loop, the throttle loop nested in it, everything else"""
+def _dict_role(loop, inside_dispatch):
     import ast
-    from pyvc.contracts import find_function
-    try:
-        fn = find_function(qualname)[1]
-    except Exception:
-        return {k: DICT_INV for k in range(12)}
-    out = {}
-    n = [0]
+    if isinstance(loop, ast.For) and isinstance(loop.target, ast.Name) and loop.target.id == 'col0':
+        return ["all(k < col0 for k in process_dict)"]
+    if inside_dispatch:
+        return ["all(k <= col0 for k in process_dict)"]
+    return []
 
-    def walk(node, inside):
-        for ch in ast.iter_child_nodes(node):
-            if isinstance(ch, (ast.For, ast.While)):
-                k = n[0]
-                n[0] += 1
-                is_dispatch = isinstance(ch, ast.For) and isinstance(ch.target, ast.Name) \
-                    and ch.target.id == 'col0'
-                if is_dispatch:
-                    out[k] = DICT_INV + ["all(k < col0 for k in process_dict)"]
-                elif inside:
-                    out[k] = DICT_INV + ["all(k <= col0 for k in process_dict)"]
-                else:
-                    out[k] = list(DICT_INV)
-                walk(ch, inside or is_dispatch)
-            else:
-                walk(ch, inside)
-    walk(fn, False)
-    return out
+
+def _dict_loops(qualname):
+    return loops_after_first_assignment(qualname, 'process_dict', DICT_INV, _dict_role)
 
 
 for q in ('cell_type_mapper.diff_exp.markers.create_sparse_by_pair_marker_file',
